@@ -30,8 +30,20 @@ if [ $ok = 1 ]; then
   if go test -count=1 -run 'Seed' "./$demopkg/" >>"$log" 2>&1; then res "demo without change: passes (as expected)"; else res "demo without change: FAILS (expected pass)"; ok=0; fi
 fi
 cd /verif
+cp "$src/patch.diff" "$out/patch.diff" 2>/dev/null; cp "$demo" "$out/" 2>/dev/null; cp "$src/meta.json" "$out/meta.agent.json" 2>/dev/null
+if [ "${SEED_CHECK_IN_WORKTREE:-0}" = 1 ]; then
+  # triage mode: the verifier reads the scratch worktree (at /repo's HEAD, with the patch applied) through -repo, so
+  # /repo itself stays untouched and can be edited meanwhile. The run of record is the one against /repo (default mode).
+  (cd "$wt" && git apply "$src/patch.diff") || { res "patch does not apply to the worktree"; exit 3; }
+  export PATH=/opt/veriftools/go1.26.8/bin:$PATH GOFLAGS=-mod=mod GOPROXY=off GOSUMDB=off GOTOOLCHAIN=local
+  VERIF_EVIDENCE_DIR=/verif/work/seed_evidence bin/d2vc check -prop "$prop" -tier quick -repo "$wt" > "$out/check_output.txt" 2>&1; rc=$?
+  git -C /repo worktree remove --force "$wt" >/dev/null 2>&1; rm -rf "$wt"
+  res "check $prop quick with change (verifier run with -repo <scratch worktree at $(git -C /repo rev-parse --short HEAD) + patch>): exit $rc, $(grep -c '^VIOLATION' "$out/check_output.txt") VIOLATION lines"
+  grep '^VIOLATION\|^  obligation' "$out/check_output.txt" | head -12 >> "$log"
+  res "confirmed=$ok detected=$([ $rc = 1 ] && echo yes || echo no)"
+  exit 0
+fi
 git -C /repo worktree remove --force "$wt" >/dev/null 2>&1; rm -rf "$wt"
-cp "$src/patch.diff" "$out/patch.diff"; cp "$demo" "$out/"; cp "$src/meta.json" "$out/meta.agent.json" 2>/dev/null
 # run the check against the real repo with the patch applied
 git -C /repo apply "$src/patch.diff" || { res "patch does not apply to /repo"; exit 3; }
 # (evidence of this run goes to work/, never to /verif/evidence: that directory only holds runs of the unchanged tree)
